@@ -83,7 +83,7 @@ PROPS = {
     ),
     "C08": P(
         technique="Lean 4 theorems over the reader+writer model + differential correspondence",
-        level_text="Proof: while a conformant message is read to its end the handler log grows by exactly the interleaved pings/pongs, in wire order, with exact payloads (any fragmentation, chunking, read sizes); a ping of 0..125 bytes is answered by one pong with the identical payload; a close with an accepted code and UTF-8 reason is handed to the handler once, echoed with the same code, and reported as CloseError{code, reason}; a handler error is permanent. Tie: controls at every position of 1-5-fragment messages, payload lengths {0,1,2,7,50,124,125}, all accepted close-code classes, default / recording / failing handlers, both roles; handler log and reply frames compared exactly; oracle: handler log = control frames in wire order, pongs = pings.",
+        level_text="Proof (any_read_program_hlog): for EVERY program over the read API (NextReader and Read(k) in any order, number and sizes, abandoning messages, reading past their ends) on a stream of conformant messages the handler log is at every point a prefix of the stream's pings / pongs in wire order with exact payloads — at most once each, never out of order, none invented; while a conformant message is read to its end the handler log grows by exactly the interleaved pings/pongs, in wire order, with exact payloads (any fragmentation, chunking, read sizes); a ping of 0..125 bytes is answered by one pong with the identical payload; a close with an accepted code and UTF-8 reason is handed to the handler once, echoed with the same code, and reported as CloseError{code, reason}; a handler error is permanent. Tie: controls at every position of 1-5-fragment messages, payload lengths {0,1,2,7,50,124,125}, all accepted close-code classes, default / recording / failing handlers, both roles; handler log and reply frames compared exactly; oracle: handler log = control frames in wire order, pongs = pings.",
         level_note="Default-handler theorems are proved for either role (default_*_any_role: a server-side reader unmasks with the frame's key); handlers_exactly_once is role-generic.",
         lean=["WS.Props.C08"],
         streams=[("rconf", 900, 16000), ("rviol", 300, 6000), ("glue", 300, 6000), ("rlimit", 300, 6000), ("sched", 60, 1000)],
